@@ -671,7 +671,6 @@ def judge(chk, scn, rep=None):
     runner = Runner(scn["cfg"])
     outs, final = runner.run(scn["word"], rep["outs"])
     diff = compare(scn["word"], outs, final, rep)
-    scn["_last"] = (outs, final)
     if diff is None and not runner.hung:
         return None
     bad = direct_oracle(scn["cfg"], scn["word"], outs, final, runner.hung)
@@ -703,7 +702,10 @@ def shrink(chk, scn, sig):
             cand = {"cfg": cur["cfg"], "word": cur["word"][:i] + cur["word"][i + 1:]}
             budget -= 1
             try:
-                r = judge(chk, cand)
+                rep = trace(chk, cand)
+                if not is_closed(rep["final"]) or any(o["o"] == "disabled" for o in rep["outs"]):
+                    continue        # keep the history executable as written
+                r = judge(chk, cand, rep)
             except Exception:
                 r = None
             if r is not None and r[1] == sig:
@@ -867,15 +869,25 @@ def rand_word(chk, rng, cfg, max_len, malformed):
         en = [a for a, e in zip(props, rep["en"]) if e]
         if en:
             word.append(en[0])
-        if closing:
-            fin = chk.lean.ask({"op": "trace", "fixed": True, "cfg": cfg, "word": word})
-            if is_closed(fin["final"]):
-                break
-    # post-completion observations
+        if closing and phase_after(chk, cfg, word) in ("idle", "done"):
+            break
+    # post-completion actions (a late execute may be accepted if none was before: close again)
     for _ in range(rng.randint(1, 4)):
         word.append(rng.choice([{"e": "status"}, {"e": "get"}, {"e": "get"}, {"e": "cancel"},
                                 rand_call(rng, cfg, mode, False)]))
+    for a in ({"e": "start"}, {"e": "ret", "r": rand_ret(rng)}):
+        if phase_after(chk, cfg, word) in ("idle", "done"):
+            break
+        word.append(a)
+    word.extend([{"e": "status"}, {"e": "get"}, {"e": "get"}])
     return word
+
+
+def phase_after(chk, cfg, word):
+    rep = chk.lean.ask({"op": "ext", "fixed": True, "cfg": cfg, "word": word, "letters": []})
+    if "err" in rep:
+        raise core.LeanError(rep["err"])
+    return rep["phase"]
 
 
 # ------------------------------------------------------------------------------------------------
@@ -994,7 +1006,7 @@ def handle(chk, scn, seen, rep=None):
     chk.count("failures", f"{kind}:{sig}")
     if n > 0:
         return                      # one minimised witness per defect; the rest is counted
-    small = shrink(chk, scn, sig)
+    small = strip(scn) if os.environ.get("C18_NOSHRINK") else shrink(chk, scn, sig)
     r2 = judge(chk, small)
     if r2 is not None and r2[1] == sig:
         what = r2[2]
@@ -1110,13 +1122,15 @@ def run(chk: core.Check):
         handle(chk, scn, seen)
     plain_scenarios(chk, seen)
     # exhaustive interleavings
-    full_t, full_c = chk.pick((4, 3), (5, 4))
-    side_t, side_c = chk.pick((3, 2), (4, 3))
+    # (task events incl. start and end, caller actions); the first (positional) configuration gets the
+    # large bound, the two other ways of passing the argument a smaller one
+    full = {"sync": chk.pick((4, 3), (5, 4)), "async": chk.pick((3, 3), (5, 3))}
+    side = {"sync": chk.pick((3, 2), (4, 3)), "async": chk.pick((3, 2), (4, 2))}
     bounds = {}
     total = 0
     for way, (cfg, callkw) in base_cfgs().items():
         for mode in ("sync", "async"):
-            t, c = (full_t, full_c) if way == "positional" else (side_t, side_c)
+            t, c = full[mode] if way == "positional" else side[mode]
             words, n_all = enumerate_words(chk, cfg, letters_for(mode, callkw), t, c, 2)
             bounds[f"{mode}/{way}"] = {"task_events<=": t, "caller_actions<=": c, "execute_calls<=": 2,
                                        "enabled_words": n_all, "closed_words_executed": len(words)}
